@@ -112,7 +112,9 @@ def run(ctx):
                 "every domain size 2^1..2^32 with counts 1 and min(255,dom-1) and nonces 0/1/u64::MAX, every count 1..255, counts "
                 ">= domain size, non-powers of two, zero counts, 999..1001 and 2000 values (iteration limit), seed lengths "
                 "0/1/2/3/7/8/9/40/100, every element type repeated, nonce search for grinding factors 0..8; then random histories. "
-                "falsifier: random histories on the six real hashers checked against a reference counter-mode expansion written "
+                "falsifier: boundary nonces first (0, 1, 2, p-2..p+2 for the f64 modulus, k*p-1..k*p+1 for k = 1..4 and the f62 modulus, 2^32+-1, "
+                "2^62, 2^63+-1, u64::MAX-1, u64::MAX; every pair must give different draw_integers output and a different next draw, on "
+                "every hasher x field, three history variants), then random histories on the six real hashers checked against a reference counter-mode expansion written "
                 "from the documentation, replay (determinism), canonical-form checks of every drawn element, interleaved "
                 "check_leading_zeros (purity), single-component mutations (sensitivity); distinct = distinct history lines")
     ctx.assumptions += [
